@@ -174,7 +174,22 @@ func runC34GetChains(r *core.Run, faults bool) {
 			now := time.Now()
 			r.SimNS = int64(now.Sub(epoch))
 			r.Logf("t=%s", now.Format(time.RFC3339))
+			// TRC updates reach the store through the real NotifyTRC (fetch, verification against the
+			// predecessor, insert) or are found in the DB; updates may be announced before they are valid
+			for p.have > 0 && p.have < len(w.trcs) && now.After(h(w.trcs[p.have].arrival)) && r.Chance("trc.via-notify", 1, 2) {
+				tr := w.trcs[p.have]
+				p.fetch.fail, p.rec.deny, p.rtr.fail = false, false, false
+				if err := p.prov.NotifyTRC(ctx, tr.signed.TRC.ID); err != nil {
+					infra("NotifyTRC %v: %v", tr.signed.TRC.ID, err)
+				}
+				r.Logf("  TRC S%d arrives through NotifyTRC", tr.serial)
+				r.Probe("trc-via-notify")
+				p.have++
+			}
 			w.insertDueTRCs(ctx, sdb, &p.have, now)
+			if l, _ := w.latestKnown(now); l != nil && now.Before(h(l.win.nb)) {
+				r.Probe("announced-trc-not-yet-valid")
+			}
 			nq := 1 + r.Choice("queries", 3)
 			for q := 0; q < nq; q++ {
 				if r.Chance("op.load", 1, 6) {
